@@ -288,7 +288,7 @@ pub fn c08(ctx: &Ctx, rep: &mut Report) {
     rep.assumptions = sim_assumptions();
     rep.assumptions.push("faults are injected one at a time; with a half-dead link / silent peer only the obligations of the side that can notice are checked".into());
     let t = ctx.tier;
-    ctx.prop(rep, "cut-points", t.pick(1_500, 60_000), 20, || c08_base().prop_map(|base| C08Case { base, only: None }), run_c08);
+    ctx.prop(rep, "cut-points", t.pick(1_500, 30_000), 20, || c08_base().prop_map(|base| C08Case { base, only: None }), run_c08);
     ctx.enumerate(rep, "last-retry-at-teardown", 12 * 14, 10, last_retry_case, run_c08);
     rep.extra.insert("fault_injections".into(), serde_json::json!(FAULT_RUNS.load(Ordering::Relaxed)));
     rep.extra.insert("fault_injections_with_pending_ops".into(), serde_json::json!(FAULT_RUNS_PENDING.load(Ordering::Relaxed)));
